@@ -365,7 +365,14 @@ def _ord_eval(prog, t, env, depth=0):
     if k == "variant" and t[1].endswith("cmp::Ordering"):
         return {"Less": -1, "Equal": 0, "Greater": 1}[t[2]]
     if k == "cast":
-        return ev(t[1])
+        v = ev(t[1])
+        ty = t[2] if len(t) > 2 else None
+        w = S.INT_WIDTH.get(ty)
+        if w and isinstance(v, int) and not isinstance(v, bool):
+            v %= (1 << w)
+            if ty.startswith("i") and v >= (1 << (w - 1)):
+                v -= (1 << w)          # reinterpretation as a signed value
+        return v
     if k == "field" and t[2] == "0":
         v = ev(t[1])
         return v[1][0] if isinstance(v, tuple) and v and v[0] in ("wrap", "rev") else v
